@@ -1170,7 +1170,7 @@ func (g *gen) makeStructs() {
 			g.p.Feature("fields:json-keys-differing-by-case-only")
 		}
 	}
-	if g.opts.Embedded && g.opts.Unions && g.pr(0.4) {
+	if g.opts.Embedded && g.opts.Unions && g.pr(0.6) {
 		// a struct EMBEDDING a union interface: a field named after the interface
 		for _, un := range g.unions {
 			if un.Name[0] >= 'A' && un.Name[0] <= 'Z' {
@@ -1257,21 +1257,21 @@ func (g *gen) makeRecursive() {
 		holder := g.add(&Decl{Name: g.fresh("Scope"), Kind: DStruct, Fields: []*Field{{Name: "Spaces", Type: Ref(ns)}, {Name: "Levels", Type: Ref(lv)}}})
 		g.structs = append(g.structs, holder)
 		g.p.Feature("recursive:named-map-and-slice-only")
-		if len(g.unions) > 0 && g.pr(0.6) {
-			// a JSON-like union: a named map of the union is itself a member
-			un := g.unions[g.r.Intn(len(g.unions))]
-			obj := g.add(&Decl{Name: g.fresh(strings.Title(un.Name) + "Object"), Kind: DNamed, Under: Map(Basic("string"), Ref(un))})
-			obj.Impls = append(obj.Impls, &Impl{Union: un})
-			g.p.Feature("recursive:union-member-is-map-of-the-union")
-			if g.pr(0.5) {
-				obj.File = "other.go" // reached only through the union
-				g.p.Feature("recursive:container-member-declared-in-other-file")
-			}
-			if g.pr(0.5) {
-				grp := g.add(&Decl{Name: g.fresh(strings.Title(un.Name) + "Group"), Kind: DNamed, Under: Slice(Ref(un)), File: "other.go"})
-				grp.Impls = append(grp.Impls, &Impl{Union: un})
-				g.p.Feature("recursive:union-member-is-slice-of-the-union-in-other-file")
-			}
+	}
+	if len(g.unions) > 0 && g.pr(0.4) {
+		// a JSON-like union: a named map of the union is itself a member
+		un := g.unions[g.r.Intn(len(g.unions))]
+		obj := g.add(&Decl{Name: g.fresh(strings.Title(un.Name) + "Object"), Kind: DNamed, Under: Map(Basic("string"), Ref(un))})
+		obj.Impls = append(obj.Impls, &Impl{Union: un})
+		g.p.Feature("recursive:union-member-is-map-of-the-union")
+		if g.pr(0.5) {
+			obj.File = "other.go" // reached only through the union
+			g.p.Feature("recursive:container-member-declared-in-other-file")
+		}
+		if g.pr(0.5) {
+			grp := g.add(&Decl{Name: g.fresh(strings.Title(un.Name) + "Group"), Kind: DNamed, Under: Slice(Ref(un)), File: "other.go"})
+			grp.Impls = append(grp.Impls, &Impl{Union: un})
+			g.p.Feature("recursive:union-member-is-slice-of-the-union-in-other-file")
 		}
 	}
 	if g.opts.Pointers {
